@@ -1,10 +1,14 @@
 package rules
 
-import "jsverif/internal/core"
+import (
+	"strings"
+
+	"jsverif/internal/core"
+)
 
 func init() {
 	Register("C02", "Decides structural necessary conditions of 'no input can crash any entry point': element accesses are guarded, panic values are errors, recovering entry points, recursion guards. Does NOT decide termination of loops in general or memory use.",
-		c02elem, c02varidx, c02ptype, c02escape, c02intarg, c02recguard, c02ovf, func(c *core.Ctx) { c16renderAs(c, "C02.stdpanic") }, func(c *core.Ctx) { c17grammarAs(c, "C02.inv.enumlit") }, pairingRule("C02.pairing", []string{"notations/jschema/scanner", "rules/enum", "formats/json"}), c02deleg("C02.deleg", []string{"notations/jschema/scanner", "rules/enum", "formats/json"}, 130))
+		c02elem, c02varidx, c02ptype, c02escape, c02intarg, c02recguard, c02ovf, func(c *core.Ctx) { c16renderAs(c, "C02.stdpanic") }, func(c *core.Ctx) { c17grammarAs(c, "C02.inv.enumlit") }, c02invNumber, pairingRule("C02.pairing", []string{"notations/jschema/scanner", "rules/enum", "formats/json"}), c02deleg("C02.deleg", []string{"notations/jschema/scanner", "rules/enum", "formats/json"}, 130))
 }
 
 func c02elem(c *core.Ctx) { c02elemAs(c, "C02.elem") }
@@ -22,5 +26,24 @@ func c02elemAs(c *core.Ctx, R string) {
 		default:
 			c.Bad(R, s.key(), pos, what, s.why)
 		}
+	}
+}
+
+// c02invNumber: json.NewNumber accepts every number the enum / schema scanners can hand to the
+// classifier (the second half of the invariant behind the LiteralJsonType table entry). It is the
+// C13 grammar product run under C02; the exponent cells are left out, because the enum and schema
+// scanners reject exponent forms themselves (C17.grammar, messageEIsNotAllowed).
+func c02invNumber(c *core.Ctx) {
+	const R = "C02.inv.number"
+	sub := core.NewCtx(c.P, c.Property, c.Tier)
+	c13grammarAs(sub, R)
+	c.Rule(R, sub.RuleText[R]+" - run under C02 for the texts WITHOUT exponent: a number literal the enum scanner accepts but NewNumber refuses makes json.Guess(...).JsonType() panic on the non-recovering enum path")
+	c.Floor(R, 10)
+	for _, o := range sub.Obs {
+		if o.Status == core.Violation && (strings.Contains(o.Key, ":'e'") || strings.Contains(o.Key, ":'E'")) {
+			o.Status = core.Note
+			o.Detail = "exponent form: outside this invariant (the enum and schema scanners do not accept exponents); C13 reports it. " + o.Detail
+		}
+		c.Obs = append(c.Obs, o)
 	}
 }
